@@ -243,8 +243,9 @@ func sumAl(al []int64) int64 {
 }
 
 type monCtx struct {
-	c    *hlib.Ctx
-	prop string
+	c     *hlib.Ctx
+	prop  string
+	stuck int // executions reported by the stuck-state detector (Close does not return / no termination)
 }
 
 func schedOf(r *Res) []int64 {
@@ -259,6 +260,9 @@ func (m *monCtx) violate(j *Job, r *Res, key, mon, desc string, obs interface{},
 	jj := *j
 	jj.Mode = "list"
 	jj.Scheds = nil
+	if mon == "stuck-state" {
+		m.stuck++
+	}
 	m.c.Violate(hlib.Violation{Key: key, Monitor: mon, Desc: desc,
 		Case:     map[string]interface{}{"job": jj, "schedule": schedOf(r), "note": "replay: job with mode=list and scheds=[schedule] on the runner"},
 		Observed: obs, Expected: exp})
